@@ -814,12 +814,10 @@ def replace_order(ctx, res):
 # field-overwrite: the old content of an object-typed field is released (or
 # known to be NULL) when the field is overwritten
 
-OVERWRITE_EXEMPT = {
-    "_trait_setstate": "reached through the pickle/copy protocol on a trait "
-                       "freshly created by __reduce_ex__ (all object fields "
-                       "NULL); calling __setstate__ directly on an "
-                       "initialised CTrait is outside the documented API",
-}
+# no exemptions: `_trait_setstate` used to be listed here (unpickling entry
+# point on a fresh object); since D40 it commits the state through the owning
+# setter helper like every other writer
+OVERWRITE_EXEMPT = {}
 
 
 def _object_fields(facts):
@@ -957,3 +955,52 @@ def set_item_fresh(ctx, res):
     from ..csym import flush_paths
     flush_paths(ctx)
     res.floor(6)
+
+
+# ---------------------------------------------------------------------------
+# parse-into-locals: argument parsing never writes borrowed references
+# straight into owning struct fields
+
+PARSERS = {"PyArg_ParseTuple", "PyArg_ParseTupleAndKeywords", "PyArg_Parse",
+           "PyArg_UnpackTuple"}
+
+
+@rule("C18.parse-into-locals", ["C18", "C14"],
+      "PyArg_Parse* stores *borrowed* references, item by item: its object "
+      "destinations are locals, never `&obj->field` of a long-lived struct "
+      "(a later item that fails to convert would leave the earlier fields "
+      "holding references the object does not own, and their previous "
+      "content leaked)")
+def parse_into_locals(ctx, res):
+    from ..cexpr import cnorm, strip
+    facts = get_cfacts(ctx)
+    n = 0
+    for fname in facts.defined_functions():
+        for c in facts.func(fname).walk():
+            if c.kind != "CallExpr" or callee(c) not in PARSERS:
+                continue
+            n += 1
+            key = f"{fname}:{callee(c)}"
+            res.instance(key, facts.loc(c))
+            bad = []
+            for a in c.ch[1:]:
+                a = strip(a)
+                if a is None or a.kind != "UnaryOperator" or a.op != "&":
+                    continue
+                inner = strip(a.ch[0])
+                if inner is not None and inner.kind == "MemberExpr" \
+                        and inner.arrow and "*" in (inner.type or ""):
+                    bad.append(cnorm(inner))
+            if not bad:
+                res.oblige(True, key, "", "")
+            for b in bad:
+                res.violation(f"{key}:field-destination:{b}", facts.loc(c),
+                              f"{fname}: `{callee(c)}` writes a borrowed "
+                              f"reference directly into the owning field "
+                              f"`{b}`; if a later item of the format fails "
+                              f"to convert the function returns with that "
+                              f"field un-owned (deallocation then releases "
+                              f"a reference it never took) and its previous "
+                              f"content leaked: parse into locals and "
+                              f"commit after validation")
+    res.floor(15)
